@@ -125,4 +125,122 @@ def i2cFramesOf : List I2cEvent → List Frame
   | .badLen _ bs :: r => bs :: i2cFramesOf r
   | _ :: r => i2cFramesOf r
 
+/-! ## What the functions above hard-wire, as the source states it
+
+The four Python functions in the syntax of Model/LoopAst.lean.  The translator writes the same
+functions, re-read from the working tree, to `Gen.Loops04.{ipmbdev,aardvark}{SendAndReceive,ReceiveRaw}`
+on every run; `Props.C04.source_shape_ipmbdev` / `source_shape_aardvark` state that they are
+EQUAL to the values below.  Each statement is annotated with the place of this file that
+mirrors it. -/
+namespace Shape
+open PyIpmi.LoopAst
+
+/-- `_send_and_receive` of ipmb-dev and Aardvark up to the `return` statement `last`.
+variables: 0=target, 1=lun, 2=netfn, 3=cmdid, 4=payload (parameters), 5=header, 6=retries, 7=rx_data -/
+def i2cSendAndReceive (last : S) : Fun :=
+  { params := 5, body := py[
+    -- `i2cRequest`: `seq := i2cIncSeq nextSeq` comes FIRST and on every path (`nextSeq := seq` whatever the outcome)
+    .expr (.call (.attr .self_ .u_inc_sequence_number) args[]),
+    -- `mkHdr cfg.slaveAddr req seq`; rq_seq is the number just advanced
+    .assign (.var 5) (.call (.glob .IpmbHeaderReq) args[]),
+    .assign (.attr (.var 5) .netfn) (.var 2),
+    .assign (.attr (.var 5) .rs_lun) (.var 1),
+    .assign (.attr (.var 5) .rs_sa) (.attr (.var 0) .ipmb_address),
+    .assign (.attr (.var 5) .rq_seq) (.attr .self_ .next_sequence_number),
+    .assign (.attr (.var 5) .rq_lun) (.num 0),
+    .assign (.attr (.var 5) .rq_sa) (.attr .self_ .slave_address),
+    .assign (.attr (.var 5) .cmdid) (.var 3),
+    -- `i2cAttempts cfg h cfg.attempts evs 0`: counter from 0 while `< max_retries` (Gen.…AttemptsExtra = 0)
+    .assign (.var 6) (.num 0),
+    .while_ (.cmp .lt (.var 6) (.attr .self_ .max_retries)) py[
+      .try_ py[
+        -- every attempt writes the same request once (`s + 1`, `List.replicate r.sends (encodeIpmbMsg h …)`)
+        .expr (.call (.attr .self_ .u_send_raw) args[.var 5, .var 4]),
+        -- `recvRaw cfg h 0 evs`: the clock restarts with every attempt; rx_data is assigned ONLY by a
+        -- `_receive_raw` that returned (`I2cRecv.got`), i.e. by a frame that passed rx_filter
+        .assign (.var 7) (.call (.attr .self_ .u_receive_raw) args[.var 5]),
+        .brk]
+        -- `I2cRecv.timeout` and `I2cRecv.ioError` → next attempt; anything else (`I2cRecv.abort`) leaves
+        (.cons (.glob .IpmiTimeoutError) py[
+        .pass_] (.cons (.glob .IOError) py[
+        .pass_] .nil)),
+      .aug .add (.var 6) (.num 1),
+      -- the sleep schedule (0.2 s × attempt) is compared by the harness, not part of the model
+      .expr (.call (.attr (.glob .time) .sleep) args[.bin .mul (.var 6) (.frac 1 5)])] py[
+      -- `i2cAttempts 0` → IpmiTimeoutError: the loop's `else`, reached only without `break`
+      .raise (.glob .IpmiTimeoutError)],
+    -- `I2cRecv.got f` → `.ok (pySlice 6 1 f)` (see `last`)
+    last] }
+
+/-- ipmb-dev returns `rx_data[5:-1]` of the frame WITHOUT its first byte (`_receive_raw` below cuts
+it off): `pySlice 6 1` of the full frame. -/
+def ipmbdevSendAndReceive : Fun :=
+  i2cSendAndReceive (.ret (.slice (.var 7) (.num 5) (.neg 1)))
+
+/-- Aardvark: the same through `py3_array_tobytes`; its `_receive_raw` returns the frame as read
+from the adapter, which lacks the first byte (the address the adapter reports separately). -/
+def aardvarkSendAndReceive : Fun :=
+  i2cSendAndReceive (.ret (.slice (.call (.glob .py3_array_tobytes) args[.var 7]) (.num 5) (.neg 1)))
+
+/-- `IpmbDev._receive_raw`.  variables: 0=header (parameter), 1=start_time, 2=rsp_received,
+3=poll_returned_no_data, 4=timeout, 5=r, 6=w, 7=e, 8=rx_data -/
+def ipmbdevReceiveRaw : Fun :=
+  { params := 1, body := py[
+    -- `recvRaw cfg h 0 …`: `el` is the time since this point
+    .assign (.var 1) (.call (.attr (.glob .time) .time) args[]),
+    .assign (.var 2) .ff,
+    .assign (.var 3) .ff,
+    -- `recvRaw` recurses until a frame passes the filter (`.hit g => .got g rest`)
+    .while_ (.not_ (.var 2)) py[
+      -- `if cfg.timeout ≤ el then .timeout …` and `.idle => .timeout rest` (an empty poll is
+      -- remembered and raises on the next round, before anything else is read)
+      .assign (.var 4) (.bin .sub (.attr .self_ .timeout) (.bin .sub (.call (.attr (.glob .time) .time) args[]) (.var 1))),
+      .ite (.or_ (.cmp .le (.var 4) (.num 0)) (.var 3)) py[
+        .raise (.glob .IpmiTimeoutError)] py[],
+      .assign (.tuple args[.var 5, .var 6, .var 7]) (.call (.attr (.glob .select) .select) args[.list args[.attr .self_ .u_dev], .list args[], .list args[], .var 4]),
+      .ite (.cmp .notIn (.attr .self_ .u_dev) (.var 5)) py[
+        .assign (.var 3) .tt,
+        .cont] py[],
+      -- `.rdError _ => .ioError rest`: the read raises
+      .assign (.var 8) (.call (.attr (.glob .os) .read) args[.attr .self_ .u_dev, .num 256]),
+      -- `.badLen … => if cfg.lenByte then .abort AssertionError` (`I2cCfg.ipmbdev.lenByte = true`)
+      .assert_ (.cmp .eq (.index (.var 8) (.num 0)) (.bin .sub (.call (.glob .len) args[.var 8]) (.num 1))),
+      .assign (.var 8) (.slice (.var 8) (.num 1) .none),
+      .assign (.var 8) (.call (.glob .array) args[.chr 66, .var 8]),
+      -- `i2cFrame`: IndexError on a short frame (here byte 3, then inside rx_filter)
+      .log args[.index (.var 8) (.num 3)],
+      -- `i2cFrame`: `rxFilter true h bs` — all default checks, sequence number always compared;
+      -- `.noise _ => recvRaw cfg h (el + dt) rest`: an unmatched frame is dropped, only time passes
+      .assign (.var 2) (.call (.glob .rx_filter) args[.var 0, .var 8]),
+      -- the first byte (rqSA) is cut off after filtering: what is returned is the frame from byte 1
+      .assign (.var 8) (.slice (.var 8) (.num 1) .none)] py[],
+    .ret (.var 8)] }
+
+/-- `Aardvark._receive_raw`.  variables: 0=header (parameter), 1=start_time, 2=rsp_received,
+3=poll_returned_no_data, 4=timeout, 5=ret, 6=i2c_addr, 7=rx_data, 8=rq_sa -/
+def aardvarkReceiveRaw : Fun :=
+  { params := 1, body := py[
+    .assign (.var 1) (.call (.attr (.glob .time) .time) args[]),
+    .assign (.var 2) .ff,
+    .assign (.var 3) .ff,
+    .while_ (.not_ (.var 2)) py[
+      -- as in ipmb-dev: timeout test first, an empty poll raises on the next round
+      .assign (.var 4) (.bin .sub (.attr .self_ .timeout) (.bin .sub (.call (.attr (.glob .time) .time) args[]) (.var 1))),
+      .ite (.or_ (.cmp .le (.var 4) (.num 0)) (.var 3)) py[
+        .raise (.glob .IpmiTimeoutError)] py[],
+      .assign (.var 5) (.call (.attr (.attr .self_ .u_dev) .poll) args[.call (.glob .int) args[.bin .mul (.var 4) (.num 1000)]]),
+      .ite (.not_ (.var 5)) py[
+        .assign (.var 3) .tt,
+        .cont] py[],
+      -- no length prefix (`I2cCfg.aardvark.lenByte = false`): `.badLen` is treated like `.frame`
+      .assign (.tuple args[.var 6, .var 7]) (.call (.attr (.attr .self_ .u_dev) .i2c_slave_read) args[]),
+      .assign (.var 7) (.call (.glob .array) args[.chr 66, .var 7]),
+      .log args[],
+      -- the filter sees address byte + data = the full frame (`i2cFrame h bs`); rx_data stays without it
+      .assign (.var 8) (.call (.glob .array) args[.chr 66, .list args[.bin .shl (.var 6) (.num 1)]]),
+      .assign (.var 2) (.call (.glob .rx_filter) args[.var 0, .bin .add (.var 8) (.var 7)])] py[],
+    .ret (.var 7)] }
+
+end Shape
+
 end PyIpmi.Loops
